@@ -383,6 +383,43 @@ var malformed = []string{
 	"req L 6c6f63616c686f73743a32303139:n ~ 0 ~ . 6c6f6f70:2f69642f6c6f6f70 474554 6c6f63616c686f73743a32303139 2f69642f6c6f6f70 . -:1:-:- -:1:-:- ~",
 }
 
+// genHist: a history of 2-7 loads that switches the endpoints on and off, moves them between
+// addresses and changes the access list
+func genHist(rng *core.Rand) string {
+	var steps []string
+	for n := 2 + rng.Intn(6); n > 0; n-- {
+		local := rng.Pick([]string{"a0", "a0", "a1", "d", "n"})
+		remote := "~"
+		if local != "n" && rng.Chance(3, 5) {
+			var entries []string
+			for e := rng.Intn(3); e >= 0; e-- {
+				var keys []int
+				for k := rng.Intn(3); k > 0; k-- {
+					keys = append(keys, rng.Intn(4))
+				}
+				perms := "."
+				switch rng.Intn(5) {
+				case 0:
+					perms = core.Hex("GET") + "|" + core.Hex("/config/")
+				case 1:
+					perms = core.Hex("POST") + "," + core.Hex("PUT") + "|~"
+				case 2:
+					perms = "~|" + core.Hex("/id/") + "," + core.Hex("/stop")
+				case 3:
+					perms = core.Hex("GET") + "|~+~|" + core.Hex("/config")
+				}
+				entries = append(entries, ints(keys)+"/"+perms)
+			}
+			remote = rng.Pick([]string{"a2", "a2", "a3"}) + "=" + strings.Join(entries, ";")
+			if rng.Chance(1, 8) {
+				remote = rng.Pick([]string{"a2", "a3"}) + "=."
+			}
+		}
+		steps = append(steps, local+"@"+remote)
+	}
+	return "hist " + strings.Join(steps, " ")
+}
+
 func (p *prop) Generate(rng *core.Rand, tier string, emit func(string)) {
 	p.mu.Lock()
 	p.init()
@@ -396,6 +433,21 @@ func (p *prop) Generate(rng *core.Rand, tier string, emit func(string)) {
 	}
 	for _, m := range malformed {
 		emit(m)
+	}
+	// lifecycle: histories of loads with network probes of every address ever configured
+	emit("hist a0@a2=0/. a0@~")
+	emit("hist a0@a2=0/. a0@a3=1/. d@~")
+	emit("hist a0@~ a1@~ d@~ a0@~")
+	emit("hist n@a2=0/.")
+	emit("hist a0@a2=0/. a0@a2=1/" + core.Hex("POST") + "|~ a0@a2=. n@~")
+	nh := 10
+	if tier == "thorough" {
+		nh = 150
+	} else if tier == "search" {
+		nh = 30
+	}
+	for i := 0; i < nh; i++ {
+		emit(genHist(rng))
 	}
 	nload := n / 25
 	for i := 0; i < n; i++ {
